@@ -1989,6 +1989,67 @@ def slice_strings(rng):
     return cases
 
 
+def pointer_containers(rng):
+    """containers whose elements are pointers (map[string]*T, []*T, deeper), *T fields: at least two
+    DISTINCT supplied values per container; compared through the pointers, and no two positions may
+    share one pointer (seeded C17-4: one scratch value for all number entries of a map)"""
+    cases = []
+    vals = {"bool": ["true", "false", "true"], "string": ["p", "q", "r"], "float32": ["0.5", "1.5", "-2.25"],
+            "float64": ["0.5", "1.5", "-2.25"]}
+    n = 0
+    for kind in KINDS:
+        lits = vals.get(kind, ["1", "2", "3"] if kind in UINT_KINDS else ["1", "-2", "3"])
+
+        def sv(mode, lit, kind=kind):
+            if mode in STRINGY:
+                return ds(lit)
+            if kind == "bool":
+                return {"b": lit == "true"}
+            if kind == "string":
+                return ds(lit)
+            if mode in ("key", "keyvaluer") and rng.random() < 0.3 and Gen.native_ok(kind, lit):
+                return {"g": [kind, lit]}
+            return dn(lit)
+
+        T = P(kind)
+        shapes = [
+            ("map*", Mp(Ptr(T)), lambda m: dobj([("a", sv(m, lits[0])), ("b", sv(m, lits[1])), ("c", sv(m, lits[2]))])),
+            ("map**", Mp(Ptr(Ptr(T))), lambda m: dobj([("a", sv(m, lits[0])), ("b", sv(m, lits[1]))])),
+            ("map", Mp(T), lambda m: dobj([("a", sv(m, lits[0])), ("b", sv(m, lits[1])), ("c", sv(m, lits[2]))])),
+            ("[]*", Sl(Ptr(T)), lambda m: {"a": [sv(m, lits[0]), sv(m, lits[1]), sv(m, lits[2])]}),
+            ("[]**", Sl(Ptr(Ptr(T))), lambda m: {"a": [sv(m, lits[0]), sv(m, lits[1])]}),
+            ("map[]*", Mp(Sl(Ptr(T))), lambda m: dobj([("a", {"a": [sv(m, lits[0]), sv(m, lits[1])]}), ("b", {"a": [sv(m, lits[2]), sv(m, lits[0])]})])),
+            ("[]map*", Sl(Mp(Ptr(T))), lambda m: {"a": [dobj([("a", sv(m, lits[0])), ("b", sv(m, lits[1]))]), dobj([("a", sv(m, lits[2])), ("c", sv(m, lits[1]))])]}),
+            ("mapmap*", Mp(Mp(Ptr(T))), lambda m: dobj([("x", dobj([("a", sv(m, lits[0])), ("b", sv(m, lits[1]))])), ("y", dobj([("a", sv(m, lits[2])), ("b", sv(m, lits[0]))]))])),
+            ("[]struct", Sl(St(F("m", Mp(Ptr(T))), F("p", Ptr(T)))),
+             lambda m: {"a": [dobj([("m", dobj([("a", sv(m, lits[0])), ("b", sv(m, lits[1]))])), ("p", sv(m, lits[2]))]),
+                              dobj([("m", dobj([("a", sv(m, lits[1])), ("b", sv(m, lits[2]))])), ("p", sv(m, lits[0]))])]}),
+            ("*map", Ptr(St(F("m", Mp(Ptr(T))))), lambda m: dobj([("m", dobj([("a", sv(m, lits[0])), ("b", sv(m, lits[1]))]))])),
+        ]
+        for name, t, mk in shapes:
+            for mode in ("json", "key", "yaml", "toml", "httpx-json", "jsonmap", "keyvaluer"):
+                n += 1
+                if mode not in ("json", "key") and n % 3:
+                    continue
+                doc = dobj([("c", mk(mode)), ("p", sv(mode, lits[1])), ("q", sv(mode, lits[2]))])
+                if mode in ("yaml", "toml") and not tame(doc):
+                    continue
+                fs = [F("c", copy.deepcopy(t)), F("p", Ptr(T)), F("q", Ptr(Ptr(T)), O(opt=True))]
+                cases.append(finish({"mode": mode, "type": St(*fs), "doc": doc, "intent": "pointer-containers", "block": n % 2 == 0}))
+        # parameter maps: []*T from repeated values, *T fields
+        for mode in ("form", "httpx-form", "header", "httpx-header", "dform"):
+            fs = [F("c", Sl(Ptr(T))), F("d", Sl(Ptr(Ptr(T))), O(opt=True)), F("p", Ptr(T)), F("q", Ptr(Ptr(T)), O(opt=True))]
+            doc = dobj([("c", {"a": [ds(lits[0]), ds(lits[1]), ds(lits[2])]}), ("d", {"a": [ds(lits[1]), ds(lits[0])]}),
+                        ("p", ds(lits[1])), ("q", ds(lits[2]))])
+            cases.append(finish({"mode": mode, "type": St(*fs), "doc": doc, "intent": "pointer-containers"}))
+        # defaults behind pointers, slice defaults with pointer elements
+        for mode in ("json", "form", "key"):
+            fs = [F("p", Ptr(T), O(**{"def": lits[0]})), F("q", Ptr(Ptr(T)), O(**{"def": lits[1]})), F("r", Ptr(T), O(**{"def": lits[0]})),
+                  F("c", Sl(Ptr(T)), O(**{"def": "[" + ",".join(lits) + "]"}))]
+            cases.append(finish({"mode": mode, "type": St(*fs), "doc": dobj([]), "intent": "pointer-containers"}))
+    return cases
+
+
 def depchains(rng):
     """optional=dep / optional=!dep chains and cycles over three fields, self-dependencies,
     dependencies on keys that no field has, on dotted keys, on "-"; every subset of supplied fields"""
@@ -2330,6 +2391,7 @@ class C08(Property):
             cases += zeros(rng)
             cases += slice_defaults(rng)
             cases += depchains(rng)
+            cases += pointer_containers(rng)
             cases += slice_strings(rng)
             cases += header_keys(rng)
             cases += ctypes(rng)
@@ -2381,7 +2443,7 @@ class C08(Property):
             if r.get("fail"):
                 raise ExecError("c08 executor: case %s: %s" % (r.get("id"), r["fail"]))
             one = lambda x: {"verdict": x["verdict"], "val": x.get("val"), "err": x.get("err", ""), "tag": x.get("tag", ""),
-                             "called": bool(x.get("called"))}
+                             "called": bool(x.get("called")), "alias": x.get("alias", "")}
             if r["verdict"] == "seq":
                 obs.append({"verdict": "seq", "steps": [one(x) for x in r["steps"]]})
             else:
@@ -2401,6 +2463,10 @@ class C08(Property):
             val = "None" if p["val"] is None or obs["verdict"] != "ok" else "(Some %s)" % cval(p["val"])
             ps.append("mkOPass (mkPass %s %s %s) %s" % (p["kc"], cfields(p["type"]["f"]), doc, val))
         verdict = {"ok": "VOk", "error": "VErr", "panic": "VPanic"}[obs["verdict"]]
+        if obs.get("alias"):
+            # two positions of the target share one pointer: not a value of the type's value space at all
+            # (writing through one position changes the other); judged like a crash
+            verdict = "VPanic"
         vd = case.get("validator") or case.get("self_validator")
         validator = "None" if vd is None else "(Some %s)" % cbool(vd == "accept")
         return "mkOCall %s %s %s %s" % (clist(ps), validator, cbool(bool(obs.get("called"))), verdict)
@@ -2458,6 +2524,8 @@ class C08(Property):
         if case["mode"] == "seq":
             return ("a request of a sequence served by one process was not decided on its own document alone "
                     "(verdicts: %s)" % [o["verdict"] for o in obs["steps"]])
+        if obs.get("alias"):
+            return "accepted, but two positions of the target share storage: %s" % obs["alias"]
         if obs["verdict"] == "panic":
             return "the unmarshaller panicked: %s" % obs.get("err", "")
         if case.get("validator") or case.get("self_validator"):
